@@ -170,6 +170,15 @@ type C19Case struct {
 
 var lspURIs = []string{"file:///a.num", "file:///b.num", "file:///dir/a.num"}
 
+// uri sets for histories: uris are opaque, so names that differ only in letter case are
+// different documents
+var lspURISets = [][]string{
+	lspURIs,
+	{"file:///a.num", "file:///A.num", "file:///b.num"},
+	{"file:///ledger/Fees.num", "file:///ledger/fees.num", "file:///LEDGER/fees.num"},
+	{"untitled:Untitled-1", "untitled:untitled-1", "file:///a.num"},
+}
+
 func lspTextPool(t *rapid.T, tier string) []string {
 	var pool []string
 	for i := 0; i < 3; i++ {
@@ -201,8 +210,9 @@ func init() {
 		c := &C19Case{}
 		open := map[string]string{}
 		n := 6 + gen.Uniform(t, "nops", 25)
+		uris := gen.Pick(t, "uriset", lspURISets)
 		for i := 0; i < n; i++ {
-			uri := gen.Pick(t, "uri", lspURIs)
+			uri := gen.Pick(t, "uri", uris)
 			_, isOpen := open[uri]
 			kind := gen.Pick(t, "kind", []string{"open", "change", "change", "hover", "hover", "definition", "symbols"})
 			if !isOpen {
